@@ -134,6 +134,8 @@ class Session:
                         cands.append(e)
                         break
             labelled = [e for e in cands if rx.match(e.desc)]
+            if labelled:
+                cands = labelled  # the label disambiguates equal sentinels (P||Q twins)
             if not cands:
                 self.problems.append(("input-missing", name))
             elif not labelled:
@@ -771,4 +773,303 @@ def check_loop(sess: Session, run, key_prefix, cell="m", alias="r0", readers=(),
             model, bad = last
             t0 = sorted(bad)[0]
             findings.append({"key": rkey, "what": f"reader {rname} of cell {cell} does not follow the cell's value with a fixed delay (inputs {sess.inputs_from_model(model)}, tick {t0}: {bad[t0][1]} instead of {bad[t0][0]})", "kind": "loop-reader", "inputs": sess.inputs_from_model(model)})
+    return findings
+
+
+# ======================================================================================
+#  C20: closed (variable-free) naming clauses, evaluated per program
+# ======================================================================================
+
+
+def stmt_lines(stmts, mode="full"):
+    """top-level name -> 1-based source line of its declaration in program_src(stmts, mode)"""
+    from .gen import stmt_src
+
+    line = 1
+    out = {}
+    for s in stmts:
+        txt = stmt_src(s, mode)
+        if s[0] in ("input", "sig", "bun", "int", "mem", "place"):
+            out[s[1]] = line
+        line += txt.count("\n") + 1
+    return out
+
+
+def check_naming(sess: Session, run, key_prefix, mode="full"):
+    findings = []
+    _zev, zref = sess.z3_pair()
+    try:
+        ref = zref()
+    except RefError as exc:
+        run.inconc(key_prefix, f"reference undefined: {exc}")
+        return findings
+    lines = stmt_lines(sess.stmts, mode)
+    outs = set(ref.output_names())
+    tops = [n for n in ref.toplevel_names if isinstance(ref.env[0].get(n), (Sig, Bun))]
+    for name in tops:
+        key = f"{key_prefix}:label:{name}"
+        anchors = sess.anchor_of(name)
+        if name not in outs:
+            if anchors:
+                findings.append({"key": key, "what": f"name {name} is consumed by another statement but has an output anchor", "kind": "anchor-for-consumed", "closed": True})
+            continue
+        consts = sess.const_producer_of(name)
+        producers = sess.producer_of(name)
+        if len(anchors) > 1:
+            findings.append({"key": key, "what": f"output {name}: {len(anchors)} anchors", "kind": "multiple-anchors", "closed": True})
+            continue
+        if not anchors and not consts:
+            findings.append({"key": key, "what": f"output {name}: neither an anchor nor a labelled constant combinator exists", "kind": "missing", "closed": True})
+            continue
+        decl = next((st for st in sess.stmts if st[0] in ("sig", "bun") and st[1] == name), None)
+        is_alias = decl is not None and decl[2][0] == "v"
+        if anchors and not is_alias:
+            # the single combinator feeding the anchor's network is "the combinator producing it"
+            a = anchors[0]
+            feeding = set()
+            for conn in (1, 2):
+                net = sess.circ.net_of(a.num, conn)
+                if net is not None:
+                    feeding |= {e for (e, how) in sess.circ.producers(net) if how == "out"}
+            if len(feeding) == 1:
+                p = sess.circ.ents[next(iter(feeding))]
+                if not _desc_re(name, r" \(").match(p.desc):
+                    findings.append({"key": key, "what": f"output {name}: the combinator producing it is described {p.desc!r}, not with the variable's name", "kind": "producer-unlabelled", "closed": True})
+        want = f":{lines.get(name)}]"
+        if producers and lines.get(name) and not any(want in p.desc for p in producers):
+            findings.append({"key": key, "what": f"output {name}: producer description lacks source line {lines.get(name)} ({[p.desc for p in producers][:2]})", "kind": "line", "closed": True})
+        if anchors:
+            a = anchors[0]
+            # the anchor must be an EMPTY constant combinator wired to something
+            if sess.circ.const_filters(a):
+                findings.append({"key": key, "what": f"output {name}: anchor is not empty", "kind": "anchor-not-empty", "closed": True})
+            if sess.circ.net_of(a.num, 1) is None and sess.circ.net_of(a.num, 2) is None:
+                findings.append({"key": key, "what": f"output {name}: anchor is not wired", "kind": "anchor-unwired", "closed": True})
+    for (name, descs) in sess.label_mismatch:
+        findings.append({"key": f"{key_prefix}:label:{name}", "what": f"input {name}: its constant combinator is not labelled with its name and value (found {descs[:2]})", "kind": "input-label", "closed": True})
+    for name, info in sess.input_info.items():
+        rx = _desc_re(name, r" \(value=" + re.escape(str(info["default"])) + r"\b")
+        ents = [sess.circ.ents[n] for n in info["ents"]]
+        if ents and any(_desc_re(name, r" \(value=").match(e.desc) for e in ents) and not any(rx.match(e.desc) for e in ents):
+            findings.append({"key": f"{key_prefix}:label:{name}", "what": f"input {name}: label does not show its value {info['default']}", "kind": "input-value-label", "closed": True})
+    return findings
+
+
+# ======================================================================================
+#  Twins: observational equivalence of two blueprints produced by the real compiler
+# ======================================================================================
+
+
+def _obs_diffs(sessA, evA, refA, sessB, evB, refB, name, tA, tB, dom):
+    """list of (label, valueA, valueB) to be compared for one named output, or (None, reason)"""
+    try:
+        rvA, rvB = refA.lookup(name), refB.lookup(name)
+    except RefError as exc:
+        return None, f"name not defined in both: {exc}"
+    oa, ha = sessA.observe(evA, name, tA)
+    ob, hb = sessB.observe(evB, name, tB)
+    if oa is None or ob is None:
+        return None, f"observation point: A {ha[0]}, B {hb[0]}"
+    if isinstance(rvA, Sig) and isinstance(rvB, Sig):
+        ca = rvA.type or sessA.carrier_hint(ha[1])
+        cb = rvB.type or sessB.carrier_hint(hb[1])
+        if ca is None or cb is None or ca not in oa or cb not in ob:
+            return None, f"carrier unknown (A {ca}, B {cb})"
+        return [(f"{ca}|{cb}", oa[ca], ob[cb])], None
+    if isinstance(rvA, Bun) and isinstance(rvB, Bun):
+        sigs = list(dict.fromkeys(list(sessA.U) + list(sessB.U)))
+        z = dom.const(0)
+        return [(s, oa.get(s, z), ob.get(s, z)) for s in sigs], None
+    return None, "kind differs"
+
+
+def check_equiv(sessA: Session, sessB: Session, run, key_prefix, names=None, entities=True, K=None, bool_inputs=()):
+    """exists inputs (or a K-step history): some common named output / entity condition differs between A and B"""
+    findings = []
+    if K is None:
+        evA, refA_f = sessA.z3_pair()
+        evB, refB_f = sessB.z3_pair()
+        ticks = [(None, None)]
+        extra = []
+        step_of = None
+    else:
+        S = max(sessA.z3_pair()[0].depth_bound(), sessB.z3_pair()[0].depth_bound()) + 4
+
+        def step_of(t):
+            return min(max(0, t - 1) // S, K - 1)
+
+        evA, refA_f = sessA.z3_pair(step_of=step_of)
+        evB, refB_f = sessB.z3_pair(step_of=step_of)
+        ticks = [((k + 1) * S, (k + 1) * S) for k in range(K)]
+        extra = []
+        ins = sorted(set(sessA.input_info) | set(sessB.input_info))
+        for k in range(1, K):
+            ch = [sessA.z3_input(n, k) != sessA.z3_input(n, k - 1) for n in ins]
+            if len(ch) > 1:
+                extra.append(z3.AtMost(*ch, 1))
+        for n in bool_inputs:
+            for k in range(K):
+                v = sessA.z3_input(n, k)
+                extra.append(z3.Or(v == 0, v == 1))
+    zero_reads = {"__default0__": True}
+    try:
+        refA = refA_f(None if K is None else 0, zero_reads)
+        refB = refB_f(None if K is None else 0, zero_reads)
+    except RefError as exc:
+        run.inconc(key_prefix, f"reference undefined: {exc}")
+        return findings
+    common = [n for n in refA.output_names() if n in set(refB.output_names())]
+    if names is not None:
+        common = [n for n in names]
+    extra += [c for c in sessB.content_constraints()]
+
+    def settle(ev, t):
+        return t
+
+    for name in common:
+        key = f"{key_prefix}:{name}"
+        rv = None
+        try:
+            rv = refA.lookup(name)
+        except RefError:
+            pass
+        if isinstance(rv, tuple) or rv is None or isinstance(rv, (int,)):
+            continue
+        diffs = []
+        reason = None
+        try:
+            for (tA, tB) in ticks:
+                try:
+                    d, reason = _obs_diffs(sessA, evA, refA, sessB, evB, refB, name, tA, tB, sessA.zd)
+                except Cyclic:
+                    T = max(settle_ticks(evA), settle_ticks(evB)) + 2
+                    d, reason = _obs_diffs(sessA, evA, refA, sessB, evB, refB, name, T, T, sessA.zd)
+                if d is None:
+                    break
+                diffs += d
+        except Unsupported as exc:
+            run.inconc(key, f"unsupported: {exc}")
+            continue
+        if reason is not None:
+            findings.append({"key": key, "what": f"output {name}: twins cannot be compared: {reason}", "kind": "twin-observation", "closed": True})
+            continue
+        neq = z3.Or(*[a != b for (_l, a, b) in diffs])
+
+        def replay(model, name=name):
+            ida, ieA, irA_f = sessA.int_pair(model, step_of=step_of)
+            idb, ieB, irB_f = sessB.int_pair(model, step_of=step_of)
+            irA = irA_f(None if K is None else 0, zero_reads)
+            irB = irB_f(None if K is None else 0, zero_reads)
+            bad = {}
+            for (tA, tB) in ticks:
+                try:
+                    d, _r = _obs_diffs(sessA, ieA, irA, sessB, ieB, irB, name, tA, tB, ida)
+                except Cyclic:
+                    T = max(settle_ticks(ieA), settle_ticks(ieB)) + 2
+                    d, _r = _obs_diffs(sessA, ieA, irA, sessB, ieB, irB, name, T, T, ida)
+                for (lab, a, b) in d or []:
+                    if a != b:
+                        bad[(tA, lab)] = (a, b)
+                if bad:
+                    break
+            return bad, bool(ida.corner_hits or idb.corner_hits)
+
+        verdict, model, bad = decide(sessA, run, key, neq, replay, extra=extra)
+        if verdict != "violation":
+            continue
+        inputs = sessA.inputs_from_model(model, steps=K)
+        inputs.update({k: v for k, v in sessB.inputs_from_model(model, steps=K).items() if k not in inputs})
+        k0 = sorted(bad, key=str)[0]
+        findings.append({"key": key, "what": f"output {name}: for inputs {inputs} the twins differ on {k0[1]}: {bad[k0][0]} vs {bad[k0][1]}" + (f" at tick {k0[0]}" if K else ""), "kind": "twin-value", "inputs": inputs})
+    if entities and K is None:
+        ea = {k: c for (k, c, _h) in refA.enables}
+        for ekey in ea:
+            key = f"{key_prefix}:enable@{ekey[0]}@{ekey[1]},{ekey[2]}"
+            A_, B_ = sessA.entity_at(ekey), sessB.entity_at(ekey)
+            if len(A_) != 1 or len(B_) != 1:
+                if ekey in {k for (k, _c, _h) in refB.enables}:
+                    findings.append({"key": key, "what": f"entity {ekey}: present {len(A_)} / {len(B_)} times in the twins", "kind": "twin-entity", "closed": True})
+                continue
+            try:
+                ena, ca = evA.circuit_condition(A_[0], None)
+                enb, cb = evB.circuit_condition(B_[0], None)
+            except (Cyclic, Unsupported) as exc:
+                run.inconc(key, f"{type(exc).__name__}")
+                continue
+            if (ca is None) != (cb is None) or bool(ena) != bool(enb):
+                findings.append({"key": key, "what": f"entity {ekey}: circuit condition present/enabled differs between the twins", "kind": "twin-entity", "closed": True})
+                continue
+            if ca is None:
+                continue
+
+            def replay(model, ekey=ekey):
+                ida, ieA, _ = sessA.int_pair(model)
+                idb, ieB, _ = sessB.int_pair(model)
+                _e, a = ieA.circuit_condition(sessA.entity_at(ekey)[0], None)
+                _e, b = ieB.circuit_condition(sessB.entity_at(ekey)[0], None)
+                return ({} if bool(a) == bool(b) else {"enable": (bool(a), bool(b))}), bool(ida.corner_hits or idb.corner_hits)
+
+            verdict, model, bad = decide(sessA, run, key, ca != cb, replay, extra=extra)
+            if verdict == "violation":
+                inputs = sessA.inputs_from_model(model)
+                findings.append({"key": key, "what": f"entity {ekey}: for inputs {inputs} the condition is {bad['enable'][0]} in one twin and {bad['enable'][1]} in the other", "kind": "twin-enable", "inputs": inputs})
+    return findings
+
+
+# ======================================================================================
+#  Closed clauses: user-placed entities (C09/C15/C16) and compiler-chosen signals (C13)
+# ======================================================================================
+
+
+def check_places(sess: Session, run, key_prefix):
+    """multiset of (prototype, top-left tile) of non-combinator, non-pole entities == what the generator's
+    own interpreter predicts (it unrolls loops and expands calls itself)"""
+    import collections
+
+    findings = []
+    _zev, zref = sess.z3_pair()
+    try:
+        ref = zref(None, {"__default0__": True})
+    except RefError as exc:
+        run.inconc(key_prefix, f"reference undefined: {exc}")
+        return findings
+    want = collections.Counter((p, x, y) for (p, x, y, _props) in ref.places)
+    got = collections.Counter()
+    for e in sess.circ.ents.values():
+        if e.kind in ("other", "content"):
+            got[(e.name,) + top_left_tile(e)] += 1
+        elif e.kind == "pole" and (e.name,) + top_left_tile(e) in want:
+            got[(e.name,) + top_left_tile(e)] += 1
+    if want != got:
+        missing = list((want - got).elements())[:5]
+        extra = list((got - want).elements())[:5]
+        findings.append({"key": f"{key_prefix}:places", "what": f"user-placed entities differ from the program: missing {missing}, unexpected {extra}", "kind": "places", "closed": True})
+    return findings
+
+
+def check_fresh(sess: Session, run, key_prefix):
+    """C13 closed clause: the signal chosen for every untyped declared value is no wildcard, not signal-W and
+    not a signal the program writes explicitly; explicitly typed inputs appear under exactly their name"""
+    from .bp import WILDCARDS
+
+    findings = []
+    explicit = set(sess._program_signals())
+    for name, info in sess.input_info.items():
+        for n in info["ents"]:
+            e = sess.circ.ents[n]
+            for (_a, _b, sig, cnt) in sess.circ.const_filters(e):
+                if cnt != info["default"]:
+                    continue
+                if info["type"] is None:
+                    bad = None
+                    if sig in WILDCARDS:
+                        bad = "a wildcard"
+                    elif sig == "signal-W":
+                        bad = "the reserved write-enable signal"
+                    elif sig in explicit:
+                        bad = "a signal the program uses explicitly"
+                    if bad:
+                        findings.append({"key": f"{key_prefix}:fresh:{name}", "what": f"untyped value {name} was given {sig}, {bad}", "kind": "fresh", "closed": True})
+                elif sig != info["type"]:
+                    findings.append({"key": f"{key_prefix}:fresh:{name}", "what": f"typed value {name} appears as {sig} instead of {info['type']}", "kind": "typed-name", "closed": True})
     return findings
